@@ -1483,6 +1483,92 @@ val wawk_emit : wstmt list -> val0 list option
 
 val wawk_run : char list -> wstmt list -> unit m
 
+type bop =
+| BOr
+| BAnd
+| BEq
+| BNe
+| BGt
+| BLt
+| BGe
+| BLe
+| BAdd
+| BSub
+| BMul
+| BDiv
+
+val lvl_op : bop -> nat
+
+type wx =
+| WNum of z
+| WSym of char list
+| WStr of char list
+| WNot of wx
+| WBin of bop * wx * wx
+| WCall of char list * wx list
+
+type tok =
+| TNum of z
+| TSym of char list
+| TStr of char list
+| TOp of bop
+| TBang
+| TLP
+| TRP
+| TComma
+
+val is_ws0 : char -> bool
+
+val is_sym_start : char -> bool
+
+val is_sym_char : char -> bool
+
+val plain_string_char : char -> bool
+
+type lexres =
+| LOk of tok list
+| LErr
+| LUnm
+
+val lcons : tok -> lexres -> lexres
+
+val skip_ignored : nat -> char list -> char list
+
+val head_is : (char -> bool) -> char list -> bool
+
+val lex : nat -> bool -> char list -> lexres
+
+type pres = (wx * tok list) option
+
+val chainl : (tok list -> pres) -> nat -> nat -> wx -> tok list -> pres
+
+val level : (tok list -> pres) -> nat -> nat -> tok list -> pres
+
+val p_comp : (tok list -> pres) -> tok list -> pres
+
+val p_neg : (tok list -> pres) -> tok list -> pres
+
+val p_args :
+  (tok list -> pres) -> nat -> wx list -> tok list -> (wx list * tok list)
+  option
+
+val p_atom : (tok list -> pres) -> nat -> tok list -> pres
+
+val p_expr : nat -> tok list -> pres
+
+val parse_tokens : tok list -> wx option
+
+val bop_op : bop -> op
+
+val to_wal : wx -> val0
+
+type xres =
+| XOk of val0
+| XErr
+| XUnm
+
+val wawk_expr : char list -> xres
+
 val pF : nat
 
 val init_result : unit res
